@@ -203,6 +203,15 @@ mod dictionary {
                 self.bytes += 1;
                 output.push([*b].as_slice())
             } else {
+                // A literal is told apart from a dictionary reference by its first byte. The
+                // statistics are supposed to cover the input; anything else cannot be
+                // represented and must not silently read back as a dictionary entry.
+                if let Some(&tag) = bytes.first() {
+                    assert!(
+                        self.decode.get(tag.into()).is_none(),
+                        "byte string starts with {tag}, which the dictionary uses as a tag"
+                    );
+                }
                 self.bytes += bytes.len();
                 output.push(bytes)
             };
